@@ -229,6 +229,7 @@ func c09X4(r *Run, rep *core.Report) {
 		}
 		rep.Fn(fn(ctor))
 		found := false
+		roles := fieldRoles(r)
 		core.Instrs(ctor, func(in ssa.Instruction) {
 			c, ok := in.(ssa.CallInstruction)
 			if !ok || core.CalleeID(c) != "(*sync/atomic.Value).Store" {
@@ -248,11 +249,11 @@ func c09X4(r *Run, rep *core.Report) {
 				cfgRoot = a.Root
 			}
 			want := ""
-			switch {
-			case strings.HasPrefix(strings.ToLower(dst.Field), "defaultexpiration"):
+			switch roles[dst.Field] {
+			case "defaultExpiration":
 				want = "DefaultExpiration"
 				found = true
-			case strings.HasPrefix(strings.ToLower(dst.Field), "evictedcallback"):
+			case "evictedCallback":
 				want = "EvictedCallback"
 			default:
 				return
